@@ -308,7 +308,7 @@ class Engine:
             if self.tiers[k] == 0:
                 cache['ax'].append((self.axioms[k], self.vars_of(self.axioms[k], set())))
         cache['n'] = n
-        return cache['ax'] + cache['base']
+        return cache['ax'] + cache['base'] + [(c_, self.vars_of(c_, set())) for c_ in self.pc]
 
     def check_bare(self, cond, timeout=1000):
         """the condition alone (e.g. a sum of squares is never negative): no axioms, no path"""
@@ -715,10 +715,11 @@ def _arith_kind(a, b, div=False):
 
 class Sym:
     """symbolic number: z3 Real term + python kind + shadows + interval facts"""
-    __slots__ = ('t', 'kind', 's', 'f')
+    __slots__ = ('t', 'kind', 's', 'f', 'c')
 
     def __init__(self, t, kind=float, s=None, f=None):
         self.t = t
+        self.c = None      # (A, B) when this value was computed as A - B with A, B >= 0 (cancellation tracking, C08)
         self.kind = kind
         self.f = f if f is not None else INPUT_FACTS.get(str(t), TOP)
         if s is None:
@@ -758,9 +759,12 @@ class Sym:
 
     def __sub__(s, o):
         try:
-            return Sym(s.t - lift(o), _arith_kind(s, o), s=_sf(lambda a, b: a - b, s.s, shadow_of(o)), f=f_add(s.f, f_neg(facts_of(o))))
+            r = Sym(s.t - lift(o), _arith_kind(s, o), s=_sf(lambda a, b: a - b, s.s, shadow_of(o)), f=f_add(s.f, f_neg(facts_of(o))))
         except TypeError:
             return NotImplemented
+        if _sgn(s.f) in ('pos', 'nonneg') and _sgn(facts_of(o)) in ('pos', 'nonneg'):
+            r.c = (s.t, lift(o))
+        return r
 
     def __rsub__(s, o):
         try:
@@ -786,7 +790,15 @@ class Sym:
         except TypeError:
             return NotImplemented
         so = shadow_of(o)
-        if _sgn(facts_of(o)) in ('pos', 'neg'):
+        cpair = getattr(o, 'c', None) if isinstance(o, Sym) else None
+        if cpair is not None and ENG.opts.get('absorption'):
+            # the divisor was computed as A - B with A, B >= 0: in floats it is exactly 0 as soon as the real
+            # difference is below half an ulp of the operands (absorption / cancellation), not only when A == B
+            A_, B_ = cpair
+            lim = (A_ + B_) / (2 ** 54)
+            if ENG.guard(z3.And(d <= lim, d >= -lim), [(x == 0, x == x) for x in so], 'ZeroDivisionError(cancellation)'):
+                raise ZeroDivisionError('float division by zero')
+        elif _sgn(facts_of(o)) in ('pos', 'neg'):
             ENG.gfacts = getattr(ENG, 'gfacts', 0) + 1      # nonzero by the proved interval facts: no query
         elif ENG.guard(d == 0, [(x == 0, x == x) for x in so], 'ZeroDivisionError'):
             raise ZeroDivisionError('float division by zero')
